@@ -19,13 +19,16 @@ class _sqrt_stub:
     """L2: sqrt is strictly increasing on 0..2^21, so argmin over sqrt(x) == argmin over x."""
 
     def __enter__(self):
-        self.saved = palette_mod.sqrt
+        self.saved = getattr(palette_mod, "sqrt", None)     # a refactoring may not use sqrt at all
         palette_mod.sqrt = lambda x: x
         if hasattr(Color.downgrade, 'cache_clear'):
             Color.downgrade.cache_clear()
 
     def __exit__(self, *a):
-        palette_mod.sqrt = self.saved
+        if self.saved is None:
+            del palette_mod.sqrt
+        else:
+            palette_mod.sqrt = self.saved
 
 
 def _truecolor(e):
@@ -87,7 +90,7 @@ class _sqrt_keys:
         self.keys, self.args = keys, []
 
     def __enter__(self):
-        self.saved = palette_mod.sqrt
+        self.saved = getattr(palette_mod, "sqrt", None)     # a refactoring may not use sqrt at all
 
         def stub(x):
             self.args.append(x)
@@ -96,7 +99,10 @@ class _sqrt_keys:
         return self
 
     def __exit__(self, *a):
-        palette_mod.sqrt = self.saved
+        if self.saved is None:
+            del palette_mod.sqrt
+        else:
+            palette_mod.sqrt = self.saved
 
 
 def _select(e, n, items):
@@ -121,10 +127,10 @@ def _mk_b(name, system, ctype, pal, opts, tiers, timeout):
         with _sqrt_keys() as rec:
             out = _downgrade(c, system)
         n = out.number
-        ok = sym_and(out.type == ctype, out.triplet is None, n >= 0, n < 16, len(rec.args) == 16)
-        # (1) the code's 16 keys are exactly the documented metric ...
-        same = True
-        for j in range(16):
+        ok = sym_and(out.type == ctype, out.triplet is None, n >= 0, n < 16)
+        # (1) the code's 16 keys are exactly the documented metric (when the code takes 16 square roots at all) ...
+        same = len(rec.args) == 16
+        for j in range(16 if same else 0):
             same = sym_and(same, rec.args[j] == _dist(r, g, b, colors[j]))
         # ... or, failing that (a refactoring may use any order-equivalent key), the chosen entry is minimal directly.
         # On the unchanged tree (1) simplifies to True; a counterexample must violate the property itself.
@@ -150,8 +156,10 @@ def _mk_b2(name, pal, tiers, timeout):
         keys = [e.mk("k%d" % j, 0, (1 << 27) - 1) for j in range(16)]
         with _sqrt_keys(keys) as rec:
             n2 = _match(pal, (r, g, b))
+        if len(rec.args) != 16:
+            return True     # the code does not go through sqrt keys: this decomposition step does not apply (see C18-b-truecolor-*)
         kn = _select(e, n2, keys)
-        ok = sym_and(n2 >= 0, n2 < 16, len(rec.args) == 16)
+        ok = sym_and(n2 >= 0, n2 < 16)
         for j in range(16):
             ok = sym_and(ok, kn <= keys[j])
         return ok
@@ -315,7 +323,13 @@ def _mk_pref(name, system, pal, tiers, timeout):
             n = out.number
             return all(mine[n] <= mine[j] for j in range(16))
         if len(rec.args) != 16:
-            return False
+            # the code no longer computes one square root per entry: fall back to the property itself
+            n = out.number
+            dn = _select(e, n, mine)
+            ok = sym_and(n >= 0, n < 16)
+            for j in range(16):
+                ok = sym_and(ok, dn <= mine[j])
+            return ok
         keys = rec.args
         ok = True
         for i in range(16):
